@@ -387,6 +387,27 @@ class Router:
         new_y_distance = math.sin(n_angle) * distance[1]
         return (new_x_distance, new_y_distance)
 
+    @staticmethod
+    def rotate_to_area_frame(
+        distance: tuple[float, float], angle: int
+    ) -> tuple[float, float]:
+        """
+        Rotates the (x, y) distances returned by calculate_distance (x along the meridian, y along the
+        parallel) into the Cartesian frame of an area whose azimuth angle is `angle` (degrees from North,
+        clockwise), as required by ETSI EN 302 931 - V1.0.0 Section 5. An angle of 0 leaves them unchanged.
+
+        Returns
+        -------
+        tuple[float, float]
+            X distance (along the azimuth direction, semi-axis a) and Y distance (across it, semi-axis b)
+        """
+        n_angle = math.radians(angle)
+        x_distance, y_distance = distance
+        return (
+            x_distance * math.cos(n_angle) - y_distance * math.sin(n_angle),
+            x_distance * math.sin(n_angle) + y_distance * math.cos(n_angle),
+        )
+
     def gn_geometric_function_f(
         self, area_type: GeoBroadcastHST, area: Area, lat: int, lon: int
     ) -> float:
@@ -408,6 +429,10 @@ class Router:
         coord1 = (area.latitude / 10000000, area.longitude / 10000000)
         coord2 = (lat / 10000000, lon / 10000000)
         x_distance, y_distance = Router.calculate_distance(coord1, coord2)
+        # EN 302 931: F is evaluated in the Cartesian frame of the shape, whose abscissa (semi-axis a)
+        # points along the azimuth angle of the area, measured clockwise from North.
+        x_distance, y_distance = Router.rotate_to_area_frame(
+            (x_distance, y_distance), area.angle)
         if area_type in (GeoBroadcastHST.GEOBROADCAST_CIRCLE, GeoAnycastHST.GEOANYCAST_CIRCLE):
             return 1 - (x_distance / area.a) ** 2 - (y_distance / area.a) ** 2
         if area_type in (GeoBroadcastHST.GEOBROADCAST_ELIP, GeoAnycastHST.GEOANYCAST_ELIP):
